@@ -258,14 +258,17 @@ func cmdWorker(args []string) int {
 				res.RaceOther = other
 				for _, g := range goat {
 					key := "race/" + g.Pair
-					v := &Violation{Property: "C08", Oracle: "data-race", Shape: g.Pair, Detail: "data race between goroutines of the application:\n" + g.Text}
+					if *prop == "C17" && !strings.Contains(g.Pair, "/x/bitcoin/") {
+						continue // C17's sweep looks at the query paths of the bridge module only; C08's reports the rest
+					}
+					v := &Violation{Property: *prop, Oracle: "data-race", Shape: g.Pair, Detail: "data race between goroutines of the application:\n" + g.Text}
 					res.Violations = append(res.Violations, v)
 					if !reported[key] {
 						reported[key] = true
 						plan.Violation = v
 						plan.Race = true
 						os.MkdirAll(*replays, 0o755)
-						path := filepath.Join(*replays, fmt.Sprintf("C08-race-%s-%x.json", sanitize(g.Pair), runSeed))
+						path := filepath.Join(*replays, fmt.Sprintf("%s-race-%s-%x.json", *prop, sanitize(g.Pair), runSeed))
 						if writePlan(path, plan) == nil {
 							res.PlanFile = path
 						}
